@@ -153,6 +153,17 @@ impl Scratch {
         paths.insert(ID_SECRET, p.join("out/secret"));
         for n in nodes {
             let parent = paths.get(&n.p).ok_or_else(|| format!("node {} has unknown parent {}", n.id, n.p))?.clone();
+            if n.k == "rootattr" {
+                // mode / owner of the root directory itself
+                let rp = cstr(p.join("root"));
+                if let Some(m) = n.mode {
+                    unsafe { libc::chmod(rp.as_ptr(), m) };
+                }
+                if let Some(u) = n.uid {
+                    unsafe { libc::chown(rp.as_ptr(), u, u) };
+                }
+                continue;
+            }
             if n.k == "mirror" {
                 // a chain of directories below the parent that spells the host path of P (the root's parent): a lexical
                 // in-root path through it reads exactly like the host path of an object next to the root
